@@ -6,9 +6,13 @@ import (
 	"os"
 )
 
+// realStderr is the process's standard error as it was at start-up: the cases that apply
+// fit.WithStdLogger point os.Stderr at the null device (impl.go, parseOpts).
+var realStderr = os.Stderr
+
 func main() {
 	if len(os.Args) < 2 {
-		fmt.Fprintln(os.Stderr, "usage: harness <facts|run|...> ...")
+		fmt.Fprintln(realStderr, "usage: harness <facts|run|...> ...")
 		os.Exit(2)
 	}
 	switch os.Args[1] {
@@ -23,7 +27,7 @@ func main() {
 	case "try":
 		os.Exit(cmdTry(os.Args[2:]))
 	default:
-		fmt.Fprintln(os.Stderr, "unknown subcommand", os.Args[1])
+		fmt.Fprintln(realStderr, "unknown subcommand", os.Args[1])
 		os.Exit(2)
 	}
 }
